@@ -2085,6 +2085,17 @@ fn check_definitions<'a>(
                 }
             }
 
+            // Groups nested in the annotations and definitions need to be checked too.
+            for (_, annotation, definition) in definitions {
+                // An omitted annotation is a unifier with nothing to check.
+                if let term::Variant::Unifier(_, _) = annotation.variant {
+                } else {
+                    check_definitions(source_path, source_contents, annotation, new_depth, errors);
+                }
+
+                check_definitions(source_path, source_contents, definition, new_depth, errors);
+            }
+
             check_definitions(source_path, source_contents, body, new_depth, errors);
         }
         term::Variant::Negation(subterm) => {
